@@ -47,7 +47,7 @@ Proof.
     + destruct d; [discriminate|]. injection E as <- _. unfold dinv, set_pc. cbn [ops pc out pc_drain] in *.
       rewrite orb_false_r in *. exact Hd.
   - unfold do_tau_c in H. cbn [cs ap rc dc] in H.
-    destruct (tau_c g r d c) as [c'|] eqn:E; [|discriminate]. injection H as <-. cbn [cs].
+    destruct (tau_c g r d (is_parked a) c) as [c'|] eqn:E; [|discriminate]. injection H as <-. cbn [cs].
     unfold tau_c in E. destruct (pc c) eqn:Hpc.
     + cbn [pc_drain] in Hd. rewrite orb_false_r in Hd.
       destruct (ops c) as [|o ro] eqn:Hops; [discriminate|]. destruct o as [n|m|]; injection E as <-.
@@ -65,7 +65,10 @@ Proof.
     + destruct d; [|discriminate]. injection E as <-. unfold dinv, set_pc. cbn [ops pc out pc_drain]. rewrite orb_true_r. reflexivity.
     + destruct r; [|discriminate]. injection E as <-. unfold read_recv_closed, c_loop, c_finish, dinv.
       cbn [closed cur negb andb ops pc out has_eof existsb is_eof]. rewrite !orb_true_r. reflexivity.
-    + destruct d; [|discriminate]. injection E as <-. unfold dinv, set_pc. cbn [ops pc out pc_drain]. rewrite orb_true_r. reflexivity.
+    + destruct d.
+      * injection E as <-. unfold dinv, set_pc. cbn [ops pc out pc_drain]. rewrite orb_true_r. reflexivity.
+      * destruct (ack_nb g && negb (is_parked a)); [|discriminate]. injection E as <-.
+        unfold dinv, close_acked. cbn [ops pc out pc_drain] in *. rewrite orb_false_r in *. exact Hd.
     + destruct r; [|discriminate]. injection E as <-. unfold dinv, close_return.
       cbn [ops pc out pc_drain has_eof existsb is_eof orb] in *. fold (has_eof (out c)). rewrite orb_false_r in *. exact Hd.
     + destruct d; [|discriminate]. injection E as <-. unfold dinv, set_pc. cbn [ops pc out pc_drain]. rewrite orb_true_r. reflexivity.
@@ -180,6 +183,32 @@ Proof.
     (split; [intros [Hx _]; discriminate|]); auto.
 Qed.
 
+(* ---- a non-blocking acknowledgement in Close (select { case r.done <- true: default: }) is not
+   enough: it is dropped when the assembler's send on r.reassembled has completed but the
+   assembler is not yet parked in <-r.done (state ASent).  Consumer-first schedule: Read receives
+   from the parked sender and returns, Close begins, the non-blocking send finds no receiver,
+   Close goes on to <-r.reassembled; then the assembler parks in <-r.done: both wait for ever.
+   Under the assembler-first schedule the same program completes: the outcome is a race. *)
+Lemma nonblocking_ack_refuted : forall le,
+  let g := nonblocking_ack le in
+  (exists n s, good_prog refute_prog = true /\
+     steps (step g) n (init g refute_hist refute_prog) s /\ nf (step g) s /\ ~ terminal s /\
+     pc (cs s) = CCloseRecv /\ ap s = AWait [] /\ rev (out (cs s)) = [ORead 1 [1%Z] ENil] /\
+     run_sched g (fun _ => false) (mu g (init g refute_hist refute_prog)) 0 (init g refute_hist refute_prog) = (s, true)) /\
+  (exists n s, steps (step g) n (init g refute_hist refute_prog) s /\ terminal s /\
+     run_sched g (fun _ => true) (mu g (init g refute_hist refute_prog)) 0 (init g refute_hist refute_prog) = (s, true)).
+Proof.
+  intros le g. set (s0 := init g refute_hist refute_prog). split.
+  - destruct (run_sched_spec g (fun _ => false) (mu g s0) 0 s0 (le_n _)) as [n [t [Hr [Hs [Hn _]]]]].
+    exists n, t. split; [reflexivity|]. split; [exact Hs|]. split; [exact Hn|].
+    assert (Hr' := Hr). subst g s0. destruct le; vm_compute in Hr; injection Hr as <-; cbn;
+      (split; [intros [Hx _]; discriminate|]); repeat split; auto.
+  - destruct (run_sched_spec g (fun _ => true) (mu g s0) 0 s0 (le_n _)) as [n [t [Hr [Hs [Hn _]]]]].
+    exists n, t. split; [exact Hs|]. split; [|exact Hr].
+    subst g s0. destruct le; vm_compute in Hr; injection Hr as <-; unfold terminal; cbn; auto.
+Qed.
+
+
 (* ---- the unrepaired stripEmpty: a loss carried by an empty slice is never reported *)
 Definition loss_hist : list batch := [[mkR [] 3%Z]].
 Definition loss_prog : list cop := [CDrain 0].
@@ -221,6 +250,12 @@ Qed.
 Lemma progress_statement_close_orig_false : forall le, ~ progress_statement (close_orig le).
 Proof.
   intros le H. destruct (progress_refuted le) as [n [s [Hg [Hs [Hn [Hnt _]]]]]].
+  destruct (H _ _ Hg _ _ Hs) as [[Ht | [s' Hst]] _]; [exact (Hnt Ht) | exact (Hn _ Hst)].
+Qed.
+
+Lemma progress_statement_nonblocking_ack_false : forall le, ~ progress_statement (nonblocking_ack le).
+Proof.
+  intros le H. destruct (nonblocking_ack_refuted le) as [[n [s [Hg [Hs [Hn [Hnt _]]]]]] _].
   destruct (H _ _ Hg _ _ Hs) as [[Ht | [s' Hst]] _]; [exact (Hnt Ht) | exact (Hn _ Hst)].
 Qed.
 
